@@ -23,7 +23,7 @@ BOUNDS = {"shapes": "native/gen_dispatch.py: a hand-picked family (1-3 methods, 
 def tasks(tier):
     from contracts import recode_c
 
-    return [dict(name="recode.tail", build=recode_c.t_recode_tail, mode="U")] + _core.attr_copy_tasks() + _core.signature_tasks() + _gen.entry_tasks(tier) + _gen.dep_tasks(tier) + _tm.mtm_missing_tasks(("empty",)) + _tm.register_tasks()[:2] + _tm.e2e_tasks(["complete"], "quick")
+    return [dict(name="recode.tail", build=recode_c.t_recode_tail, mode="U")] + _core.attr_copy_tasks() + _core.signature_tasks() + _core.descriptor_tasks()[1:] + _gen.entry_tasks(tier) + _gen.dep_tasks(tier) + _tm.mtm_missing_tasks(("empty",)) + _tm.register_tasks()[:2] + _tm.e2e_tasks(["complete"], "quick")
 
 
 def conformance(tier):
